@@ -53,6 +53,17 @@ CLAIMS["C09"] = dict(
          "Address = base + offset is the C02 accounting invariant.",
 )
 
+CLAIMS["C18"] = dict(
+    text="The history quantifier is reduced to a one-state invariant and proved: a complete AST inventory (regenerated every run) shows that the only module- or "
+         "class-level state written in any function body is try_compute.depth, Awaiting.awaiting_stack, handle_reports.handlers_stack, Deferred.next_instance_id and "
+         "five import-time registries; the real __enter__/__exit__ of TryCompute, Awaiting and handle_reports and Deferred.construct restore depth, stacks and marks on "
+         "normal, exceptional and swallowing exits (every outcome of the deferred body incl. NotReadyError, RecoverableError, DeferredCycle, self- and mutual cycles); "
+         "next_instance_id reaches only __repr__ text; the package has no set iteration, hash(), id(), time, random or environment reads outside the audio back ends. "
+         "A run-time check compares a probe program after random histories and under three PYTHONHASHSEED values (testing, separate).",
+    note="Trusted: pyvc incl. Python's with-protocol, z3, the syntactic inventory (an alias of a module-level object under another local name would escape it). "
+         "Stdlib-internal hash effects and OS state are external.",
+)
+
 CLAIMS["C14"] = dict(
     text="Closed, exhaustive on the real module: all 256 bytes decode and re-encode to themselves; agreement with the stdlib ascii codec on 0x00-0x7E and koi8_r on "
          "0xC0-0xFF; ENCODING_TABLE is exactly the inverse relation of DECODING_TABLE; for each of the 1114112 code points encode succeeds iff the character is in the "
